@@ -57,8 +57,10 @@ Enc(v, reg, D) ==
     [] v.ty = "unimplementedError" -> Leaf(v.s, v.a, <<>>)
     [] v.ty = "barrierErr" -> Leaf(v.s, <<>>, <<P("EncodedError", <<>>, <<>>, <<Enc(v.hid[1], reg, D)>>, <<>>)>>)
     [] v.ty = "uRegLeaf" -> Leaf(v.s, <<>>, <<P("String", v.s, <<>>, <<>>, <<>>)>>)
-    \* (the wire message of a gRPC status is its description, without the "rpc error: code = ..." head)
-    [] v.ty = "grpcStatus" -> Leaf(Tail(v.s), <<>>, <<P("Status", v.s, <<>>, <<>>, <<>>)>>)
+    \* (the code's encoder sends the description only, without the "rpc error: code = ..."
+    \* head: deviation GrpcStatusSendsDescription, extgrpc/ext_grpc.go encodeGrpcStatus)
+    [] v.ty = "grpcStatus" -> Leaf(IF "GrpcStatusSendsDescription" \in D THEN Tail(v.s) ELSE v.s, <<>>,
+                                   <<P("Status", v.s, <<>>, <<>>, <<>>)>>)
     [] v.ty = "uProtoLeaf" -> Leaf(v.s, <<>>, <<P("uProto", v.s, <<>>, <<>>, <<>>)>>)
     [] v.ty \in LeafTy /\ ~IsWrap(v) -> Leaf(Text(v), <<>>, <<>>)
     \* ---- multi-cause nodes travel as leaves with causes
